@@ -4,6 +4,10 @@ import vlib
 
 
 def judge(run, events, label):
+    for ev in events:          # TLC integers are 32-bit: bytes -> kB, clamped
+        ev["allockb"] = min(int(ev.get("alloc", 0)) // 1000, 2000000000)
+        ev["ms"] = min(int(ev.get("ms", 0)), 2000000000)
+        ev["len"] = min(int(ev.get("len", 0)), 400000000)
     vlib.write_ndjson(run.spec_path("c04_trace.ndjson"), events)
     r = run.tlc_eval("HostileTrace", "c04_trace", timeout=3000)
     out = r.json_lines()
@@ -17,6 +21,8 @@ def judge(run, events, label):
         cls = ev["case"].split(":")
         if cls[0] == "doc":
             inp = "doc:%s:%s" % (cls[2], cls[3])          # shape and nesting
+        elif cls[0] == "gob" and cls[1] == "nest":
+            inp = "gob:nest"             # the same input class whichever gob entry point receives it
         elif cls[0] == "gob":
             inp = "gob:" + cls[2]
         elif cls[0] == "bytes":
@@ -24,7 +30,7 @@ def judge(run, events, label):
         else:
             inp = cls[0]
         for why in b["why"]:
-            key = "total:%s:%s:%s" % (ev["entry"], inp, why)
+            key = "total:%s:%s:%s" % ("(gob entry)" if inp == "gob:nest" else ev["entry"], inp, why)
             msg = ev.get("msg") or next((f.get("msg", "") for f in ev["follow"] if f.get("msg")), "")
             run.observe(key, "%s on %s (%d bytes): %s %s ms=%s alloc=%s (%s)" % (ev["entry"], ev["case"], ev["len"], why, msg[:160], ev["ms"], ev["alloc"], label),
                         dict(event=ev))
